@@ -127,8 +127,8 @@ type c20 struct{ routes []dynRoute }
 func (c20) Name() string      { return "c20" }
 func (c20) CoqModule() string { return "C20" }
 func (c20) Rule() string {
-	return "routes of cmd/ui/v1beta1/main.go round-robin; per case: user header (absent 15%, 'alice', ':' = empty user), RBAC oracle (deny all 20%, allow namespace " +
-		"'mine' only 60%, allow all 20%), query parameters namespace in {mine, victim, kubeflow, other, '', absent} and object names (existing in that namespace, " +
+	return "routes of cmd/ui/v1beta1/main.go round-robin; per case: user header (absent 15%, 'alice', ':' = empty user), RBAC oracle (deny all 15%, every verb in namespace " +
+		"'mine' 45%, allow all 15%, read-only member of 'mine' = get/list/watch only 25%), query parameters namespace in {mine, victim, kubeflow, other, '', absent} and object names (existing in that namespace, " +
 		"existing elsewhere, unknown, absent), JSON bodies for the POST routes (well formed, missing fields, malformed), cluster state (which namespaces hold " +
 		"templates, 0-3 trials, the k-th API call fails, DB manager fails, delayed experiment deletion). Non-trivial: the request reached an authorisation " +
 		"decision or an API access (the trace has at least one event). Distinct: by (route, request, oracle, cluster state)."
@@ -175,7 +175,7 @@ func (c c20) Gen(r *rand.Rand, i, n int) any {
 		s := ":"
 		in.Header = &s
 	}
-	in.Rbac = pickW(r, []rbacSpec{{Mode: "deny"}, {Mode: "ns", Ns: "mine"}, {Mode: "all"}}, []int{20, 60, 20})
+	in.Rbac = pickW(r, []rbacSpec{{Mode: "deny"}, {Mode: "ns", Ns: "mine"}, {Mode: "all"}, {Mode: "ro", Ns: "mine"}}, []int{15, 45, 15, 25})
 	// cluster state
 	in.World.Trials = pickW(r, []int{0, 1, 2, 3}, []int{10, 25, 30, 35})
 	in.World.Templates = pickW(r, [][]string{{"kubeflow", "mine", "victim"}, {"kubeflow", "mine"}, {"kubeflow"}, {"mine"}, {}, {"kubeflow", "victim"}}, []int{40, 20, 10, 10, 5, 15})
@@ -275,6 +275,15 @@ var findingDomain = map[string]string{
 	"/katib/delete_template/":       "authorised-body",
 }
 
+// the verb of the route's own review (part of the definition of the finding domains "the request passes the route's
+// own authorisation")
+var routeVerb = map[string]string{
+	"/katib/delete_experiment/": "delete",
+	"/katib/add_template/":      "create",
+	"/katib/edit_template/":     "update",
+	"/katib/delete_template/":   "delete",
+}
+
 func (c c20) Run(inp any) kit.Case {
 	in := inp.(input)
 	var rt *dynRoute
@@ -367,7 +376,8 @@ func (c c20) Run(inp any) kit.Case {
 
 	pair := func(p [2]string) string { return kit.Pair(kit.Str(p[0]), kit.Str(p[1])) }
 	reqC := kit.Rec("Req", kit.Str(hdr), kit.Str(user), kit.ListOf(params, pair), kit.ListOf(keys, kit.Str), kit.ListOf(fields, pair), kit.ListOf(libfail, kit.Str))
-	rbacC := map[string]string{"deny": "RDeny", "all": "RAllowAll", "ns": "(RAllowNs " + kit.Str(in.Rbac.Ns) + ")"}[in.Rbac.Mode]
+	rbacC := map[string]string{"deny": "RDeny", "all": "RAllowAll", "ns": "(RAllowNs " + kit.Str(in.Rbac.Ns) + ")",
+		"ro": "(RReadOnly " + kit.Str(in.Rbac.Ns) + ")"}[in.Rbac.Mode]
 	apisC := kit.ListOf(rec.apis, func(a apires) string {
 		switch {
 		case a.Ok:
@@ -387,7 +397,9 @@ func (c c20) Run(inp any) kit.Case {
 
 	// ---- finding domain of the input
 	key := ""
-	authNs := func(ns string, ok bool) bool { return ok && in.Header != nil && in.Rbac.allows(ns) }
+	authNs := func(ns string, ok bool) bool {
+		return ok && in.Header != nil && in.Rbac.allows(routeVerb[in.Route], ns)
+	}
 	switch findingDomain[in.Route] {
 	case "all":
 		key = "route:" + in.Route
